@@ -61,6 +61,7 @@ func main() {
 func runHistory(run *evid.Run, rng *rand.Rand, h int, immutable, large bool, nOps int, pairs map[string]int) {
 	reg := ocimem.NewWithConfig(&ocimem.Config{ImmutableTags: immutable})
 	m := model.New(immutable)
+	m.BlobMediaTypes = true // direct in-memory registry: blob descriptors carry the pushed media type
 	var u *model.Universe
 	if large {
 		u = model.LargeUniverse(rng, gram.GenRepo, gram.GenTag)
